@@ -176,6 +176,11 @@ def _iterable(eng, ctx, v):
         return 'seq', eng.as_seq(ctx, v)
     if isinstance(v, GenSeq):
         return v.what, v.sv
+    from .externals import Recorder
+    if isinstance(v, Recorder):
+        t = eng.to_v(ctx, v)
+        ctx.assume(smt.vlen(t) >= 0)
+        return 'seq', PySeq([View(smt.vseq(t), z3.IntVal(0), smt.vlen(t))], 'list')
     raise Unsupported('iteration over %r' % (v,))
 
 
@@ -190,6 +195,9 @@ def _bind_target(eng, ctx, tgt, item):
     out = []
     for c, r in res:
         if isinstance(r, Raised):
+            if isinstance(item, S) and item.sort == 'V':
+                eng.ext.note('the items of an opaque iterable unpack into the loop target (pairs for `for a, b in xs`)')
+                continue
             raise Unsupported('raising loop target assignment')
         out.append(c)
     return out
